@@ -626,3 +626,169 @@ class GlobReference(Bounded):
 
 def registry():
     return [MatchGlobRun(), MatchGlobRuns(), PathSplit(), MatchBase(), Match(), IsGlob(), GlobReference()]
+
+
+# ---- FileFilter._match_globs: combination of include / extra / exclude verdicts ------------------------------------
+
+import bfg9000.builtins.find as F
+FindResult = F.FindResult
+
+
+class FileFilterMatch(Contract):
+    """_match_globs combines the verdicts of the individual globs: an exclude match prunes (exclude_recursive);
+    otherwise include iff some include says yes; otherwise not_now iff some extra glob matches; otherwise
+    exclude_recursive **only if every include says never** (so pruning loses nothing an include could select),
+    else exclude.  The per-glob verdicts are arbitrary (every combination is explored)."""
+    target = 'bfg9000/builtins/find.py::FileFilter._match_globs'
+    properties = ('C11',)
+
+    def cases(self):
+        return ['%d/%d/%d' % (i, x, e) for i in (1, 2) for x in (0, 1) for e in (0, 1, 2)]
+
+    def params(self, cx, case):
+        ni, nx, ne = map(int, case.split('/'))
+        mk = lambda kind, k: Obj(object, {'kind': kind, 'idx': k})
+        selfv = Obj(F.FileFilter, {'include': tuple(Obj(PathGlob, {'tag': ('inc', k)}) for k in range(ni)),
+                                   'extra': tuple(Obj(G.NameGlob, {'tag': ('extra', k)}) for k in range(nx)),
+                                   'exclude': tuple(Obj(G.NameGlob, {'tag': ('exc', k)}) for k in range(ne))})
+        return {'self': selfv, 'path': Obj(_Path, {})}
+
+    def opaque_calls(self):
+        def pmatch(I, args, kwargs, node):
+            res = list(Result)[I.choose(3)]
+            I.events.append(('pathglob', args[0].attrs['tag'], res, args[2] if len(args) > 2 else kwargs.get('skip_base', False)))
+            return res
+
+        def nmatch(I, args, kwargs, node):
+            res = [True, False][I.choose(2)]
+            I.events.append(('nameglob', args[0].attrs['tag'], res))
+            return res
+        return {PathGlob.__dict__['match']: pmatch, G.NameGlob.__dict__['match']: nmatch}
+
+    def ensures(self, a, r):
+        ev = a.events
+        exc = [e[2] for e in ev if e[0] == 'nameglob' and e[1][0] == 'exc']
+        ext = [e[2] for e in ev if e[0] == 'nameglob' and e[1][0] == 'extra']
+        inc = [e for e in ev if e[0] == 'pathglob']
+        n_inc = len(a.self.attrs['include'])
+        if any(exc):
+            want = FindResult.exclude_recursive
+        else:
+            if len(inc) != n_inc:
+                return {'every_include_is_consulted': z3.BoolVal(False)}
+            verdicts = [e[2] for e in inc]
+            if any(v is Result.yes for v in verdicts):
+                want = FindResult.include
+            elif any(ext):
+                want = FindResult.not_now
+            elif all(v is Result.never for v in verdicts):
+                want = FindResult.exclude_recursive
+            else:
+                want = FindResult.exclude
+        out = {'verdict_combination': z3.BoolVal(r is want)}
+        if inc:
+            out['base_is_skipped_only_for_a_single_include'] = z3.BoolVal(all(e[3] is (n_inc == 1) for e in inc))
+        return out
+
+
+class FindTree(Bounded):
+    """find() on real directory trees (temp dir) against a brute-force reference: every entry below the pattern's
+    base that the documented semantics select and that is not excluded (by name, or below an excluded directory)
+    is returned, nothing else, and every returned entry exists -- so pruning never changes the result."""
+    target = 'bfg9000/builtins/find.py::_find_files'
+    properties = ('C11', 'C08')
+    reason = 'real file-system walk (os.listdir / os.path) with in-place pruning of the directory list'
+    TREES = [
+        ['a/x.c', 'a/y.h', 'a/sub/z.c', 'b.c', 'd/e/f.c', 'd/.h'],
+        ['src/a.c', 'src/gen/out/b.c', 'src/gen/c.txt', 'src/x y.c', 'inc/a.h'],
+        ['a/a/a.c', 'a/b/a.c', 'b/a/a.c', 'a.c'],
+    ]
+    PATTERNS = ['*.c', '**/*.c', 'a/*', 'a/**', '**/', 'src/**/*.c', '**/a/*.c', '*/', 'src/gen/out/**/', 'd/**/*', '**/?.c']
+    EXCLUDES = [None, ['*.h'], ['sub/'], ['gen/', 'a.c'], ['a/']]
+
+    def native_inputs(self, case, alphabet, maxlen, rng, extra=0):
+        for ti in range(len(self.TREES)):
+            for pat in self.PATTERNS:
+                for exc in self.EXCLUDES:
+                    yield {'tree': ti, 'pattern': pat, 'exclude': exc}
+        for ti in range(len(self.TREES)):
+            yield {'tree': ti, 'pattern': ['src/*.c', 'src/gen/out/**/'], 'exclude': None}
+            yield {'tree': ti, 'pattern': ['a/*.c', 'd/**/*.c'], 'exclude': ['e/']}
+
+    def native_check(self, case, raw):
+        import os, tempfile
+        from bfg9000.path import Path, Root
+        pats = raw['pattern'] if isinstance(raw['pattern'], list) else [raw['pattern']]
+        with tempfile.TemporaryDirectory() as tmp:
+            tmp = os.path.realpath(tmp)
+            files = self.TREES[raw['tree']]
+            dirs = set()
+            for f in files:
+                os.makedirs(os.path.join(tmp, os.path.dirname(f)), exist_ok=True)
+                open(os.path.join(tmp, f), 'w').close()
+                parts = f.split('/')[:-1]
+                for k in range(1, len(parts) + 1):
+                    dirs.add('/'.join(parts[:k]))
+
+            def base_of(pat):
+                bits = pat.rstrip('/').split('/')
+                k = 0
+                while k < len(bits) and not any(ch in bits[k] for ch in '*?['):
+                    k += 1
+                return bits[:k]
+            for pat in pats:
+                b = '/'.join(base_of(pat))
+                if b and b not in dirs:
+                    return None         # the property only speaks about patterns whose literal prefix exists
+
+            class Env:
+                base_dirs = {Root.srcdir: Path(tmp + '/', Root.absolute), Root.builddir: Path(tmp + '/b/', Root.absolute)}
+            try:
+                got = F.find(Env, pats, exclude=raw['exclude'])
+            except Exception as e:      # noqa
+                return self.fail(case, raw, 'find_completes', error=repr(e))
+            got_set = {(p.suffix, p.directory) for p in got}
+            for p in got:
+                full = os.path.join(tmp, p.suffix)
+                if not os.path.exists(full) or os.path.isdir(full) != p.directory:
+                    return self.fail(case, raw, 'every_returned_entry_exists', entry=p.suffix)
+            # reference
+            entries = [(f, False) for f in files] + [(d, True) for d in sorted(dirs)] + [('', True)]
+            excl = raw['exclude'] or []
+
+
+            def name_excluded(name, isdir):
+                for e in excl:
+                    pat = e.rstrip('/')
+                    if e.endswith('/') and not isdir:
+                        continue
+                    if not e.endswith('/') and isdir:
+                        continue
+                    if _fnmatch.fnmatchcase(name, pat):
+                        return True
+                return False
+            want = set()
+            for sfx, isdir in entries:
+                comps = sfx.split('/') if sfx else []
+                for pat in pats:
+                    nb = len(base_of(pat))
+                    # exclusion applies to the names *below* the pattern's literal prefix
+                    if any(name_excluded(comps[k], True if k < len(comps) - 1 else isdir) for k in range(nb, len(comps))):
+                        continue
+                    want_dir = pat.endswith('/')
+                    bits = [b for b in pat.rstrip('/').split('/')]
+                    if want_dir != isdir:
+                        continue
+                    if ref_match(bits, comps):
+                        want.add((sfx, isdir))
+            if got_set != want:
+                return self.fail(case, raw, 'result_is_exactly_the_selected_entries',
+                                 missing=sorted(want - got_set), unexpected=sorted(got_set - want))
+            if len(got) != len(got_set):
+                return self.fail(case, raw, 'no_duplicates', entries=[p.suffix for p in got])
+        return True
+
+
+def registry():
+    return [MatchGlobRun(), MatchGlobRuns(), PathSplit(), MatchBase(), Match(), IsGlob(), FileFilterMatch(), GlobReference(),
+            FindTree()]
